@@ -15,6 +15,8 @@ for n in "${names[@]}"; do
   d=seeded/$n
   [ -f $d/patch.diff ] || continue
   prop=$(python3 -c "import json;print(json.load(open('$d/meta.json'))['property'])")
+  # check_with: other properties whose check is also tried when the property's own check does not report the change
+  also=$(python3 -c "import json;print(' '.join(json.load(open('$d/meta.json')).get('check_with',[])))")
   wt=$base/$n
   git -C /repo worktree remove --force $wt 2>/dev/null
   git -C /repo worktree add -q --detach $wt HEAD || { echo "| $n | $prop | worktree failed |" >> $tmpres; continue; }
@@ -27,6 +29,16 @@ for n in "${names[@]}"; do
   t1=$(date +%s)
   key=$(echo "$out" | grep -m1 "^  key=" | sed 's/^  key=//; s/ case=.*//' | cut -c1-110)
   if [ $rc -eq 1 ] && echo "$out" | grep -q "^VIOLATION property=$prop"; then verdict="DETECTED"; else verdict="MISSED (exit $rc)"; fi
+  if [ "$verdict" != "DETECTED" ]; then
+    for ap in $also; do
+      out=$(VERIF_REPO=$wt VERIF_OUT=$base/out-$n ./check.sh $ap quick 2>&1); rc2=$?
+      if [ $rc2 -eq 1 ] && echo "$out" | grep -q "^VIOLATION property=$ap"; then
+        key=$(echo "$out" | grep -m1 "^  key=" | sed 's/^  key=//; s/ case=.*//' | cut -c1-110)
+        verdict="DETECTED by $ap (not by $prop)"; break
+      fi
+    done
+    t1=$(date +%s)
+  fi
   echo "| $n | $prop | $verdict | \`$key\` | $((t1-t0)) s |" >> $tmpres
   echo "$n $prop $verdict $key"
   git -C /repo worktree remove --force $wt
